@@ -112,6 +112,10 @@ func VerifyConfig(config *Config) error {
 				pair.Size, config.ShareMemoryBufferCap)
 		}
 
+		if pair.Size > ^uint32(0)-bufferHeaderSize {
+			return fmt.Errorf("BufferSliceSizes's Size:%d is too large", pair.Size)
+		}
+
 		if isArmArch() && pair.Size%4 != 0 {
 			return fmt.Errorf("the SizePercentPair.Size must be a multiple of 4")
 		}
